@@ -803,10 +803,30 @@ func (w *w2) failover(op simrt.Op) {
 	// the restored coordinator answers on its own copy too, so the live store is untouched by probes
 	clone2 := w.cloneStore()
 	restored.store = kafsim.NewStore(clone2, 1)
+	faultsFired := func() int {
+		n := 0
+		for _, v := range w.sim.Stats.FaultsFired {
+			n += v
+		}
+		return n
+	}
 	for _, p := range probes {
+		before := faultsFired()
 		a := p.run(old)
 		b := p.run(restored)
 		w.sim.Probe("c15.probe")
+		if faultsFired() != before {
+			// an injected store failure hit the probe's own call on one of the two copies: from here on
+			// the two copies differ because of the probe, not because of the coordinator
+			w.sim.Probe("c15.probe-hit-fault")
+			break
+		}
+		if a != b && w.storeBehindAfterRefusedWrite(p.name) {
+			// a group write was refused and no request of that group has succeeded since: the request
+			// that needed the write was answered with an error and its retry is still to come
+			w.sim.Probe("c15.store-behind-after-refused-write")
+			continue
+		}
 		if a != b && w.prop == "C15" {
 			w.sim.Fail("C15", "failover-answers-differ", "%s: the running coordinator answers %q, a coordinator restored from the store answers %q", p.name, a, b)
 			break
@@ -821,6 +841,38 @@ func (w *w2) failover(op simrt.Op) {
 	g := w.gate
 	w.gate = nil
 	g.Set(true)
+}
+
+// storeBehindAfterRefusedWrite: the last PutConsumerGroup of the probe's group was refused by an injected
+// failure and no join or sync of that group has been answered NONE since (every NONE answer of the
+// coordinator follows a successful write, so until then the store may legitimately be one step behind).
+func (w *w2) storeBehindAfterRefusedWrite(probeName string) bool {
+	i := strings.Index(probeName, "(")
+	if i < 0 {
+		return false
+	}
+	group := probeName[i+1:]
+	if j := strings.IndexAny(group, ",)"); j >= 0 {
+		group = group[:j]
+	}
+	w.store.Lock()
+	refused := append([]kafsim.StoreWrite(nil), w.store.Refused...)
+	w.store.Unlock()
+	last := -1
+	for _, r := range refused {
+		if r.Method == "PutConsumerGroup" && r.Key == group && r.Step > last {
+			last = r.Step
+		}
+	}
+	if last < 0 {
+		return false
+	}
+	for _, o := range w.answered("") {
+		if o.group == group && (o.kind == "join" || o.kind == "sync") && o.code == 0 && o.ret > last {
+			return false
+		}
+	}
+	return true
 }
 
 func (w *w2) cloneStore() *metadata.InMemoryStore {
